@@ -343,7 +343,9 @@ def gen_op(rng, t, cfg, ids_seen):
             val = rng.randint(1, 9)
             key = rng.choice(["c1", "c2"])
             return "UA %d %d=t%d" % (n_, KEY[key], val), (lambda: UserUpdateNodeAttrs(t, n_, {key: val})), "update_attrs"
-        key = rng.choice(["time", "track_id", "lineage_id", "area", "pos", "iou"])
+        # "pos" only where it is a managed (protected) feature: writing a scalar into a user-supplied
+        # position vector is outside the domain
+        key = rng.choice(["time", "track_id", "lineage_id", "area", "iou"] + (["pos"] if cfg["seg"] else []))
         val = rng.randint(1, 9)
         line = "UA %d %d=%s%d" % (n_, KEY[key], "z" if key in ("time", "track_id", "lineage_id") else "t", val)
         return line, (lambda: UserUpdateNodeAttrs(t, n_, {key: val})), "update_attrs_protected"
